@@ -15,24 +15,29 @@ ANCHORS = (
     "acryo.simulator:_simulate_one",
     "acryo.simulator:_simulate_2d_one",
     "acryo.simulator:TomogramSimulator.simulate_2d",
+    "acryo.simulator:_simulate_projection_one",
+    "acryo.simulator:_simulate_color_one",
 )
 REQUIRED_COUNTERS = ("anchor:_prep_iterators", "anchor:_prep_slices", "anchor:_simulate_one",
-                     "anchor:_simulate_2d_one")
+                     "anchor:_simulate_2d_one", "anchor:_simulate_projection_one", "anchor:_simulate_color_one")
 RULE = ("modes: exact (identity orientation, template voxels on tomogram voxels: pasted block == template, zero "
         "elsewhere, mass equal, loader returns the template), additive (molecule/component permutations and "
         "splits give the same volume), clip (simulate(S,pos) == simulate(S+2p,pos+p)[p:-p] for poses straddling or "
         "outside faces), general (analytic particle at a random pose: centre of mass within 0.05 px, values within "
-        "2%/25% of the peak for order 3/1, loader returns the template), proj (simulate_2d == z-sum of simulate); "
+        "2%/25% of the peak for order 3/1, loader returns the template), proj (simulate_2d == z-sum of simulate), "
+        "aproj (tilt series and arbitrary projection planes of cubic simulators == analytic projection of the planted "
+        "Gaussian particles, 3 % of the peak), color (coloured simulation of order-0/1 simulators == colour-weighted sum "
+        "of single-molecule simulations); "
         "non-trivial = >= 2 molecules or a non-grid pose; distinct by (mode, case seed)")
 TOLERANCES = {"exact_rel": 2e-5, "com_px": 0.05, "general_order3_rel": 0.03, "general_order1_rel": 0.3,
-              "proj_rel": 2e-4}
+              "proj_rel": 2e-4, "aproj_rel": 0.03, "color_rel": 2e-5}
 MIN_DECIDED = {"quick": 1500, "thorough": 30000}
 
 
 def cases(tier, seed):
     rng = gen.rng_for(seed, PROP, tier)
     n = 300 if tier == "quick" else 6000
-    modes = ["exact", "exact", "additive", "clip", "general", "general", "proj"]
+    modes = ["exact", "exact", "additive", "clip", "general", "general", "proj", "aproj", "color"]
     out = []
     for i in range(n):
         mode = modes[int(rng.integers(0, len(modes)))]
@@ -76,9 +81,157 @@ def _comp(rng, tmpl, scale, case):
     return tmpl
 
 
+def _aproj_case(case):
+    """Projections of the simulated tomogram in other directions (tilt series, arbitrary projection planes) against the
+    analytic projection of the planted Gaussian particles: a blob (a, c, s) projects to a 2-D Gaussian of amplitude
+    a*sqrt(2 pi)*s at ((c - rc).ex + (nx-1)/2, (c - rc).ey + (ny-1)/2). Measured <= 0.7 % of the peak."""
+    from acryo import TomogramSimulator, Molecules
+
+    p = case.params
+    rng = gen.rng_for(p["iseed"], "c14-aproj")
+    scale = p["scale"]
+    # blob centres stay >= 4 sigma away from the template's box faces (the statement assumes a template that vanishes
+    # near its faces; with 2.5 sigma the truncated tails showed up as 3.3 % of the peak in one rotated view)
+    S = (17, 17, 17) if rng.random() < 0.6 else (16, 18, 17)
+    blobs = gen.make_blobs(rng, S, n=4, sigma=(1.1, 1.4), margin=5.8)
+    tmpl = gen.render_box(S, blobs)
+    shape = (int(rng.integers(40, 50)), int(rng.integers(42, 54)), int(rng.integers(42, 54)))
+    nm = int(rng.integers(1, 4))
+    posp = np.array([[rng.uniform(15, s_ - 15) for s_ in shape] for _ in range(nm)])
+    if rng.random() < 0.3:      # a molecule whose projection straddles the edge of the canvas
+        posp[0, 1:] = [rng.uniform(-3, 3), rng.uniform(5, shape[2] - 5)]
+        case.count("aproj_edge_straddling")
+    Rs = [gen.random_rotation(rng) for _ in range(nm)]
+    ncomp = 1 if nm == 1 or rng.random() < 0.5 else 2
+    # Only cubic simulators are judged: the projection entry points always resample with order 3 and without
+    # prefilter, which matches the stored template (spline coefficients) only when the simulator itself has order 3;
+    # with order 0/1 the views come out smoothed by the cubic B-spline kernel (peaks 8-14 % low). The statement of
+    # C14 does not cover these entry points, so that is an observation (DESIGN 9.2b), not a finding.
+    sim = TomogramSimulator(order=3, scale=scale)
+    rot = Rotation.from_quat(np.stack([r.as_quat() for r in Rs]))
+    if ncomp == 1:
+        sim.add_molecules(Molecules(posp * scale, rot), _comp(rng, tmpl, scale, case))
+    else:
+        sim.add_molecules(Molecules(posp[:1] * scale, rot[:1]), tmpl, name="a")
+        sim.add_molecules(Molecules(posp[1:] * scale, rot[1:]), tmpl, name="b")
+    world = [(a, pp + R.apply(mu), sg) for pp, R in zip(posp, Rs) for a, mu, sg in blobs]
+    if nm >= 2:
+        case.nontrivial(("aproj", p["iseed"]))
+
+    def analytic(shape2, ex, ey, rc_px):
+        yy, xx = np.mgrid[0:shape2[0], 0:shape2[1]]
+        out = np.zeros(shape2)
+        for a, c, sg in world:
+            d = c - rc_px
+            u = float(d.dot(ex)) + (shape2[1] - 1) / 2
+            v = float(d.dot(ey)) + (shape2[0] - 1) / 2
+            out += a * np.sqrt(2 * np.pi) * sg * np.exp(-((xx - u) ** 2 + (yy - v) ** 2) / (2 * sg * sg))
+        return out
+
+    # errors are measured against the peak of a whole projected blob, not against whatever tail of a particle that
+    # straddles the canvas edge happens to be visible (thorough seed 1: 3.3 % of such a tail)
+    peak = 0.5 * max(a * np.sqrt(2 * np.pi) * sg for a, _, sg in world)
+    rc_px = np.array(shape) / 2 - 0.5
+    degs = [0.0] + [float(x) for x in rng.uniform(-70, 70, size=int(rng.integers(1, 4)))]
+    ts = np.asarray(sim.simulate_tilt_series(degs, shape))
+    if not case.check(ts.shape == (len(degs), shape[1], shape[2]), "tilt series has the wrong shape", None, got=ts.shape):
+        return
+    for k, dg in enumerate(degs):
+        rad = np.deg2rad(dg)
+        want = analytic(shape[1:], np.array([np.sin(rad), 0, np.cos(rad)]), np.array([0, 1.0, 0]), rc_px)
+        e = float(np.abs(ts[k] - want).max() / max(want.max(), peak))
+        case.maxobs("max_tilt_series_err", e)
+        case.decided += want.size // 8
+        case.check(e <= TOLERANCES["aproj_rel"], "tilt series view is not the projection of the planted particles", None,
+                   err=e, degree=dg, scale=scale, nmol=nm)
+    # an arbitrary projection plane through an arbitrary centre
+    Q = gen.random_rotation(rng).as_matrix()
+    ex, ey = Q[0], Q[1]
+    cen_px = rc_px + rng.uniform(-4, 4, 3)
+    shape2 = (int(rng.integers(40, 56)), int(rng.integers(40, 56)))
+    g1, g2 = float(rng.uniform(0.5, 3)), float(rng.uniform(0.5, 3))     # axes need not be unit vectors
+    pr = np.asarray(sim.simulate_projection(shape2, tuple(cen_px * scale), tuple(ex * g1), tuple(ey * g2)))
+    want = analytic(shape2, ex, ey, cen_px)
+    if case.check(pr.shape == want.shape, "projection has the wrong shape", None, got=pr.shape):
+        e = float(np.abs(pr - want).max() / max(want.max(), peak))
+        case.maxobs("max_projection_err", e)
+        case.decided += want.size // 8
+        if True:
+            case.check(e <= TOLERANCES["aproj_rel"], "simulate_projection is not the projection of the planted particles "
+                       "onto the requested plane", None, err=e, scale=scale, nmol=nm)
+    # the z view of both entry points is the z-sum of the 3-D simulation (interpolation differs: 3-D rotation of the
+    # template with order 3 on one side, the simulator's order on the other)
+    if True:
+        zsum = np.asarray(sim.simulate(shape)).sum(axis=0)
+        e = float(np.abs(ts[0] - zsum).max() / max(zsum.max(), peak))
+        case.maxobs("max_tilt0_vs_zsum", e)
+        case.check(e <= TOLERANCES["aproj_rel"], "tilt series at 0 degrees is not the z-projection of simulate", None, err=e)
+
+
+def _color_case(case):
+    """Coloured simulation: channel k is the sum over molecules of colour_k * alpha * (transformed template - min) /
+    (max - min); with a template whose minimum is 0 that is sum_i colour_ik * alpha_i * gray_i / max, gray_i being the
+    grey simulation of molecule i alone."""
+    import polars as pl
+    from acryo import TomogramSimulator, Molecules
+
+    p = case.params
+    rng = gen.rng_for(p["iseed"], "c14-color")
+    # orders 0 and 1 only: with order 3 the colour path normalises by the range of the stored spline coefficients
+    # instead of the template's (outside the statement of C14; DESIGN 9.2b)
+    scale, order = p["scale"], min(int(p["order"]), 1)
+    S = gen.pick_shape(rng, 5, 9)
+    tmpl = rng.random(size=S).astype(np.float32)
+    tmpl[tuple(rng.integers(0, s_) for s_ in S)] = 0.0          # minimum exactly 0
+    shape = tuple(int(s_ + rng.integers(6, 12)) for s_ in S)
+    nm = int(rng.integers(1, 5))
+    posp = np.array([[rng.uniform(-2, s_ + 1) for s_ in shape] for _ in range(nm)])
+    rot = Rotation.from_quat(np.stack([gen.random_rotation(rng).as_quat() for _ in range(nm)]))
+    cols = rng.random(size=(nm, 3))
+    alpha = rng.uniform(0.2, 1.0, size=nm)
+    with_alpha = bool(rng.random() < 0.5)
+    feats = pl.DataFrame({"r": cols[:, 0], "g": cols[:, 1], "b": cols[:, 2], "a": alpha})
+    mole = Molecules(posp * scale, rot, features=feats)
+    sim = TomogramSimulator(order=order, scale=scale).add_molecules(mole, tmpl)
+    use_array = bool(rng.random() < 0.4)
+    if use_array:
+        table = np.concatenate([cols, alpha[:, None]], axis=1) if with_alpha else cols
+        got = np.asarray(sim.simulate(shape, colormap=table.astype(np.float32)))
+        case.count("colour_tables")
+    else:
+        def cmap(df):
+            c_ = (float(df["r"][0]), float(df["g"][0]), float(df["b"][0]))
+            return c_ + (float(df["a"][0]),) if with_alpha else c_
+        got = np.asarray(sim.simulate(shape, colormap=cmap))
+    if not case.check(got.shape == (3,) + shape, "coloured simulation has the wrong shape", None, got=got.shape):
+        return
+    want = np.zeros((3,) + shape)
+    tmax = float(tmpl.max())
+    for i in range(nm):
+        g_i = np.asarray(TomogramSimulator(order=order, scale=scale).add_molecules(
+            Molecules(posp[i:i + 1] * scale, rot[i:i + 1]), tmpl).simulate(shape)).astype(np.float64)
+        a_i = alpha[i] if with_alpha else 1.0
+        cc = cols[i].astype(np.float32).astype(np.float64) if use_array else cols[i]
+        for k in range(3):
+            want[k] += cc[k] * (np.float32(a_i) if use_array else a_i) * g_i / tmax
+    if nm >= 2:
+        case.nontrivial(("color", p["iseed"]))
+    sc = max(float(np.abs(want).max()), 1e-12)
+    e = float(np.abs(got - want).max()) / sc
+    case.maxobs("max_colour_err", e)
+    case.decided += want.size // 8
+    case.check(e <= TOLERANCES["color_rel"] or float(np.abs(want).max()) < 1e-9, "coloured simulation is not the colour-"
+               "weighted sum of the single-molecule simulations", None, err=e, nmol=nm, with_alpha=with_alpha,
+               table=use_array, order=order)
+
+
 def run(case):
     from acryo import TomogramSimulator, SubtomogramLoader, Molecules
 
+    if case.params["mode"] == "aproj":
+        return _aproj_case(case)
+    if case.params["mode"] == "color":
+        return _color_case(case)
     p = case.params
     rng = gen.rng_for(p["iseed"], "c14")
     order, scale, mode = p["order"], p["scale"], p["mode"]
